@@ -27,8 +27,9 @@ Definition jid := nat.
 Definition iid := nat.
 Definition txid := nat.
 
-(* [scheduler] pickup_job_after, captured_job_timeout, batch_size *)
-Record cfg := mkCfg { pickup : N; timeout : N; batch : option nat }.
+(* [scheduler] pickup_job_after, captured_job_timeout, batch_size; qmem: has_scheduled_jobs answers
+   from the in-memory job copies before it asks the store (Gen/SchedQuery.v says what the code does) *)
+Record cfg := mkCfg { pickup : N; timeout : N; batch : option nat; qmem : bool }.
 
 (* a row of scheduled_jobs_v2: id, execute_at, captured_at, key (0 = no key) *)
 Record row := mkRow { rid : jid; rexec : N; rcap : option N; rkey : nat }.
@@ -160,7 +161,7 @@ Definition heap_due (i : iid) (t : N) (e : iid * jid * N) : bool :=
   match e with (i', _, x) => Nat.eqb i' i && (x <=? t) end.
 Definition heap_le (a b : iid * jid * N) : bool := snd a <=? snd b.
 
-(* has_scheduled_jobs(key=k, processing=p): in-memory jobs of the instance first,
+(* has_scheduled_jobs(key=k, processing=p): in-memory jobs of the instance first (if qmem),
    then a count over the rows visible to the caller (committed + own transaction) *)
 Definition visible (st : state) (tx : option txid) : list row :=
   store st ++ match tx with
@@ -171,8 +172,8 @@ Definition visible (st : state) (tx : option txid) : list row :=
 Definition cap_is (processing : bool) (c : option N) : bool :=
   match c with None => negb processing | Some _ => processing end.
 
-Definition has_jobs (st : state) (i : iid) (tx : option txid) (key : nat) (processing : bool) : bool :=
-  existsb (fun m => Nat.eqb (mi m) i && Nat.eqb (mkey m) key && cap_is processing (mcap m)) (mem st) ||
+Definition has_jobs (c : cfg) (st : state) (i : iid) (tx : option txid) (key : nat) (processing : bool) : bool :=
+  (qmem c && existsb (fun m => Nat.eqb (mi m) i && Nat.eqb (mkey m) key && cap_is processing (mcap m)) (mem st)) ||
   existsb (fun r => Nat.eqb (rkey r) key && cap_is processing (rcap r)) (visible st tx).
 
 (* ---- the step function ---- *)
@@ -302,7 +303,7 @@ Definition step (c : cfg) (st : state) (s : ev) : state :=
            (log st) (obs st) (jobs st) (committed st) (rolled st)
   | Query i tx key processing =>
       mkSt (now st) (next st) (store st) (pend st) (mem st) (heap st) (pool st) (workers st) (polls st)
-           (log st) (obs st ++ [has_jobs st i tx key processing]) (jobs st) (committed st) (rolled st)
+           (log st) (obs st ++ [has_jobs c st i tx key processing]) (jobs st) (committed st) (rolled st)
   end.
 
 Definition run (c : cfg) (steps : list ev) (st : state) : state := fold_left (step c) steps st.
